@@ -57,7 +57,7 @@ DEPENDS = {
     'C09': ['C04.ladder', 'C04.lex', 'C05.*', 'C11.wiring.aggregate', 'C11.wiring.rowreduce', 'C11.wiring.fold', 'C11.wiring.groupselect*',
             'C11.wiring.mergeduplicates', 'C11.wiring.rowgroupmap'],
     'C10': ['C04.ladder', 'C04.lex', 'C05.*', 'C11.wiring.duplicates', 'C11.wiring.unique', 'C11.wiring.distinct', 'C11.wiring.conflicts'],
-    'C11': ['C04.ladder', 'C04.lex'],
+    'C11': ['C04.ladder', 'C04.lex', 'C08.itercomplement.merge*', 'C08.iterintersection.merge'],
     'C13': ['C04.ladder', 'C04.lex'],
     'C14': ['C12.asindices*', 'C11.wiring.pivot'],
 }
